@@ -1031,6 +1031,10 @@ func runC05Staleness(b *fw.B) {
 		if quick {
 			sc.Epochs = min(sc.Epochs, 8)
 		}
+		if (b.Batch/3+k)%2 == 0 && sc.ForkEpochs[0] < 2 {
+			// several phase0 epochs before the first upgrade (an upgrade rebuilds much of the tree and would hide a stale node)
+			sc.ForkEpochs = [4]uint64{3, 4, 5, 6}
+		}
 		b.Case("staleness-chain", sc.String())
 		var c05spec *common.Spec
 		check := func(z common.BeaconState, where string) bool {
